@@ -1,3 +1,4 @@
 #!/bin/sh
-# refresh the committed digests of the property statement files
-cd "$(dirname "$0")/../coq/Properties" && sha256sum C*.v > STATEMENTS.sha256 && cat STATEMENTS.sha256
+# refresh the committed digest of property statement files: tools/update_digests.sh C19 [C20 ...]
+cd "$(dirname "$0")/../coq/Properties" || exit 1
+for p in "$@"; do sha256sum "$p.v" | cut -d' ' -f1 > "$p.sha256"; echo "$p $(cat $p.sha256)"; done
